@@ -39,8 +39,8 @@ Ltac prove_refutes ubs :=
 ''')
 verd={'k1':'VK1','k2':'VK2','k3':'VK3','k4':'VK4','k5':'VK5'}
 for k in ['k1','k2','k3','k4','k5']:
-    subprocess.check_call([H,'replay','--in','/verif/corpus/sched/%s.trace'%k,'--out','/tmp/sched-w/%s.out'%k])
-    L=open('/tmp/sched-w/%s.out'%k).read().splitlines()
+    subprocess.check_call([H,'replay','--in','/verif/corpus/sched/%s.trace'%k,'--out','/verif/build/sched-witness-%s.out'%k])
+    L=open('/verif/build/sched-witness-%s.out'%k).read().splitlines()
     nres=1; workers=[]; classes=[]; tasks=[]; busy=[]
     vars=[]; values=[]; disp=[]
     for l in L:
